@@ -51,7 +51,7 @@ Lemma run_start_fields s :
   /\ outputs (run_start s) = outputs s /\ enable_tracing (run_start s) = enable_tracing s
   /\ enable_warnings (run_start s) = enable_warnings s
   /\ loc (run_start s) = match hd_error (st_keys s) with Some n => mkloc (Some n) 0 | None => imm0 end
-  /\ loops (run_start s) = [].
+  /\ loops (run_start s) = [] /\ data_it (run_start s) = None.
 Proof.
   unfold run_start, run_from_first_numbered_line, reset_runtime_state, reset_data_cursor, program_end.
   rewrite StoreProofs.set_imm_is_modify. unfold modify, bind, StoreProofs.imm_reset, store_first.
@@ -65,8 +65,8 @@ Theorem sim_from_run F p s seed n stmts :
   Sim F p (outputs s) (0, 0) (r_init seed) (run_start s).
 Proof.
   intros HI Hidle Hp0.
-  destruct (run_start_fields s) as (R1 & R2 & R3 & R4 & R5 & R6 & R7 & R8 & R9 & R10 & R11).
-  generalize dependent (run_start s). intros rs R1 R2 R3 R4 R5 R6 R7 R8 R9 R10 R11.
+  destruct (run_start_fields s) as (R1 & R2 & R3 & R4 & R5 & R6 & R7 & R8 & R9 & R10 & R11 & R12).
+  generalize dependent (run_start s). intros rs R1 R2 R3 R4 R5 R6 R7 R8 R9 R10 R11 R12.
   assert (Hhd : hd_error (st_keys s) = Some n).
   { rewrite (i_keys F p s HI). destruct p as [|[n0 st0] p']; [discriminate|]. cbn in Hp0. inversion Hp0; subst. reflexivity. }
   rewrite Hhd in R10.
@@ -81,6 +81,7 @@ Proof.
   - split; [reflexivity|]. rewrite R6. constructor.
   - unfold loops_rel. rewrite R11. constructor.
   - intros name x H. rewrite R5 in H. discriminate.
+  - unfold data_rel. rewrite R12. reflexivity.
   - exists n, stmts, toks, toks. split; [exact Hp0|]. split; [exact Ht|].
     rewrite R10. split; [reflexivity|]. split; [reflexivity | exact HL].
 Qed.
